@@ -1749,6 +1749,13 @@ inline bool Chunk::SafeToDeleteNl() const
    {
       return(false);
    }
+
+   if (  Is(CT_NEWLINE)
+      && tmp->TestFlags(PCF_IN_PREPROC))
+   {
+      // the line break that ends a directive (inside one they are CT_NL_CONT)
+      return(false);
+   }
    return(tmp->IsSamePreproc(GetNext()));
 }
 
